@@ -21,11 +21,13 @@ TInit == AInit /\ l = 1 /\ scen = 0 /\ viol = {} /\ dead = FALSE /\ call = <<>> 
 TReset == Step("reset") /\ scen' = E.scen /\ stype' = E.sock /\ conn' = {} /\ ident' = <<>> /\ pend' = <<>> /\ cut' = <<>> /\ credit' = 0
           /\ dead' = FALSE /\ call' = <<>> /\ wires' = <<>> /\ hits' = <<>> /\ gone' = {} /\ joined' = {} /\ jwait' = EmptyMap /\ owed' = FALSE /\ UNCHANGED viol
 \* a peer joins: the rotation window restarts; the joiner must be served within the next n successes
-TAttachRet == Step("attach_ret") /\ UNCHANGED <<scen, call, wires, gone, owed>> /\
+TAttachRet == Step("attach_ret") /\ UNCHANGED <<scen, call, wires, owed>> /\
    IF E.res = "ok" THEN DoAdmit(E.c, E.id) /\ hits' = <<>> /\ joined' = joined \cup {E.c} /\ jwait' = Put(jwait, E.c, 0)
+        \* a connection that announces the identity of an older one supersedes it: the older one no longer is "the peer of that identity"
+        /\ gone' = (IF Fld(E, "auto", FALSE) THEN gone ELSE gone \cup {c \in conn : ident[c] = E.id})
         \* an identity the socket assigned itself must not collide with that of another connected peer
         /\ IF Fld(E, "auto", FALSE) /\ \E c \in conn \ gone : ident[c] = E.id THEN Flag("C09/auto-identity-not-unique") ELSE NoFlag
-   ELSE UNCHANGED <<avars, hits, joined, jwait>> /\ NoFlag
+   ELSE UNCHANGED <<avars, hits, joined, jwait, gone>> /\ NoFlag
 TWrote == Step("peer_wrote") /\ UNCHANGED <<scen, call, wires, svars>> /\ NoFlag /\ DoWrote(E.c, E.m)
 \* the peer's end is closed / its pipe broken: from now on it counts as departed (sends to it may fail or succeed
 \* until the socket has noticed; rotation is not judged across such a change)
